@@ -528,6 +528,24 @@ func (a *ArgvGen) unknownTok() string {
 	t := a.t
 	names := []string{"unk", "zzz", "W", "Q", "wq", "nope", "unknown-opt", "Z", "0", "ü"}
 	n := rapid.SampledFrom(names).Draw(t, "unkname")
+	if rapid.IntRange(0, 2).Draw(t, "unkelsewhere") == 0 {
+		// a name declared elsewhere in the tree but not visible (not even as a prefix) at this level:
+		// a child's own option given before the command token, a parent's option inside an UnsetOptions wrapper
+		var elsewhere []string
+		for _, l := range a.spec.Levels().AllLevels() {
+			for _, k := range l.VisibleKeys() {
+				if k == "-" {
+					continue
+				}
+				if key, cands := resolve(a.cur, k); key == "" && len(cands) == 0 {
+					elsewhere = append(elsewhere, k)
+				}
+			}
+		}
+		if len(elsewhere) > 0 {
+			n = rapid.SampledFrom(elsewhere).Draw(t, "unkelsewherename")
+		}
+	}
 	style := rapid.SampledFrom([]string{"--", "--", "-"}).Draw(t, "unkdash")
 	tok := style + n
 	if a.spec.Mode == ModeBundling && style == "-" && rapid.Bool().Draw(t, "unkbundle") {
